@@ -111,7 +111,7 @@ def st_grid_case(draw, max_atoms=4, lmax_lo=1, dens=None, max_level=3):
                         "quantile": draw(st.sampled_from([0.0, 0.0, 0.02, 0.1, 0.3, 0.6, 0.9])),
                         "zeta": draw(st.floats(0.4, 2.0)), "twice": draw(st.booleans())}
     if dens is not True and draw(st.integers(0, 3)) == 0:
-        case["rebuild"] = {"level": draw(st.integers(0, max_level)), "prune": draw(st.sampled_from(PRUNES))}
+        case["rebuild"] = {"level": draw(st.integers(0, max_level)), "prune": draw(st.sampled_from(PRUNES)), "move": draw(st.booleans())}
     return case
 
 
@@ -561,6 +561,21 @@ def run_grid_case(case, ctx, sub):
         g = build_cider(rb["level"], rb["prune"], g)
         full_check(g, "rebuilt", rb["level"], rb["prune"])
         key.append(["rebuilt", rb["level"], rb["prune"]])
+        if rb.get("move"):
+            # reset(mol2): the same grids object handed a displaced copy of the molecule (what mf.reset(mol) and the
+            # scanners do at every new geometry) is, after build(), PySCF's grid for the new geometry
+            mol2 = mol.copy()
+            mol2.set_geom_(mol.atom_coords() + 0.11 * np.arange(1, 3 * mol.natm + 1).reshape(mol.natm, 3) / (3 * mol.natm), unit="Bohr")
+            mol2.build(False, False)
+            g.reset(mol2)
+            g = configure(g, case, rb["level"], rb["prune"])
+            g.build(sort_grids=case["sort_grids"])
+            r2 = configure(gen_grid.Grids(mol2), case, rb["level"], rb["prune"])
+            r2.build(sort_grids=case["sort_grids"])
+            ctx.event("reset_to_moved_molecule")
+            ctx.check(g.mol is mol2, ("reset_mol", "grids_keep_old_molecule"))
+            check_reference(ctx, g, r2, "moved")
+            key.append(["moved"])
 
     if nontrivial:
         ctx.nontrivial(key)
@@ -585,7 +600,7 @@ RULE = ("molecules of 1-4 atoms from H..Ar (element pool with repeats), tetrahed
 
 @subcheck("C19", "build_index_map", lambda: st_grid_case(4, 1, None, 3), quick=1200, thorough=20000,
           rule=RULE + "A quarter of the cases continue with prune_by_density_ and a quarter with reset + rebuild at "
-                      "another level / pruning scheme on the same object (all oracles again). non-trivial = >= 2 atoms "
+                      "another level / pruning scheme on the same object (all oracles again), half of those followed by reset(mol2) with a displaced copy of the molecule and a build that must give PySCF's grid for the new geometry. non-trivial = >= 2 atoms "
                       "or >= 2 distinct angular sizes (and >= 1 point removed when density pruning ran); distinct by "
                       "(elements, level, atom_grid, prune, radial scheme, lmax, alignment, sort_grids, stages)",
           tolerances={"ylm_orthonormality": YTOL, "dirs": DTOL, "everything_else": "bit equality"}, assumptions=ASSUME,
